@@ -213,6 +213,10 @@ fn finite(c: Complex64) -> bool {
 }
 fn on_branch_cut(e: &Expression, a: &Assign) -> bool {
     let ee = from_impl(e);
+    // names outside the tables (possible only under a mutant) cannot be rebuilt
+    if ee.any(&|s| matches!(s, E::Var(x) if *x >= VAR_NAMES.len()) || matches!(s, E::Addr(n, _) if *n >= REGION_NAMES.len())) {
+        return false;
+    }
     let mut subs = Vec::new();
     ee.subterms(&mut subs);
     subs.iter().any(|s| {
